@@ -194,6 +194,28 @@ def run(ctx):
                           "an iteration of evict consults %s only: the other map keeps an index of the evicted entry" % maps, "", None, p.describe())
         ctx.floor("C20-b", "iterations of evict", n_it, 4)
 
+    # encoder-stream instructions are applied one by one, each before the next is parsed: Duplicate and name-reference inserts are
+    # resolved against the table AT PARSE TIME (parse_instruction reads self.table), so an instruction may depend on the one before it
+    oer = ru.need(ctx, "C20-c", "h3::qpack::decoder::Decoder::on_encoder_recv")
+    if oer:
+        heads_o = oer.loop_heads()
+        ex_o = pa.Explorer(prog, oer, max_visits=1)
+        n_app = 0
+        for h_ in heads_o:
+            for p in ex_o.paths(start=h_, stop_at=heads_o):
+                oc = p.outcomes("Decoder::parse_instruction")
+                if oc[:2] != ["Ok", "Some"]:
+                    continue
+                n_app += 1
+                applied = [e[2].cname for e in p.calls(D + "DynamicTableDecoder::put", D + "DynamicTableDecoder::set_max_size", "::put", "::set_max_size")
+                           if (e[2].ckey or "").startswith("h3::qpack::dynamic")]
+                ctx.check(bool(applied), "C20-c", oer.key, "a parsed instruction is applied before the next one is parsed (%s)" % "/".join(oc[2:3]),
+                          "an iteration of on_encoder_recv parses an instruction (%s) without applying it to the table in the same iteration: the next "
+                          "instruction's references are then resolved against a table that lacks it (BadRelativeIndex, or another entry's field)"
+                          % "/".join(oc[2:3]), "", None, p.describe())
+        ctx.floor("C20-c", "instruction-applying iterations of on_encoder_recv", n_app, 2)
+        ctx.check(len(heads_o) == 1, "C20-c", oer.key, "one loop parses and applies", "on_encoder_recv has %d loops" % len(heads_o), "")
+
     # ------------------------------------------------------------ C20-c
     first_byte_table(ctx, "C20-c", Q + "stream::EncoderInstruction::decode",
                      {k: v["first_byte"] for k, v in WIRE["encoder_instructions"].items()},
